@@ -67,6 +67,23 @@ theorem can_reconnect (s : St) (t : Tid) (ping : Option Nat) (ht : s.thr t = .cL
       s'.g.recv = .reading ∧ s'.g.send = .idle ∧ s'.g.loop = .select ∧ s'.g.sockClosed = false ∧ s'.g.cancelled = false := by
   exact Proofs.C07.can_reconnect ht hc
 
+/-- **no connection is made while a teardown is draining**: the drainer keeps `conn.mu` until the wait group is empty,
+so a `Connect` cannot get to `postConnect` in between - which is why the queues, the wait group and the socket of the
+old connection are never shared with a new one (a reconnect that overlapped the drain would have its lines eaten by it) -/
+theorem no_connect_while_draining {s : St} (h : Reach s) (hd : Draining s) (t : Tid) (ping : Option Nat) :
+    step s (.cSucceed t ping) = none := by
+  obtain ⟨t', g, ht'⟩ := hd
+  have inv := Proofs.C07.reach_inv h
+  have hm := inv.holder t' (by simp [ht', Proofs.C07.holds])
+  by_cases hc : s.thr t = .cLocked
+  · have hm2 := inv.holder t (by simp [hc, Proofs.C07.holds])
+    rw [hm] at hm2
+    have : t' = t := Option.some.inj hm2
+    subst this
+    rw [ht'] at hc
+    cases hc
+  · simp [step, hc]
+
 /-! ### a disconnect that is asked for does begin (defect 12, fix 9105b13)
 
 The theorems above are about a teardown once some closer has passed the test-and-clear. These are about getting there
